@@ -107,11 +107,29 @@ def directed():
             yield R.mk_case(PROP, src0, targets, ops)
 
 
+def directed_constants():
+    """a constant=True, allow_refs=True parameter built with a reference: successful and FAILING syncs (the source
+    emits a value the target rejects), then a plain assignment to the constant, which must still raise TypeError"""
+    src0 = [[1, 2], [3, 4]]
+    for ref, shared, sib in itertools.product((R.par(0, 0), R.fn([[0, 0], [1, 0]], 0), R.fn([[0, 0]], 1, True)), (False, True), (False, True)):
+        ctor = [[3, ref]] + ([[0, R.par(0, 0)]] if sib else [])
+        pds = R.shared_params(R.STD) if shared else [dict(p) for p in R.STD]
+        for bad in (40, -7):
+            ops = [{'op': 'srcSet', 's': 0, 'i': 0, 'v': 2},
+                   {'op': 'srcSet', 's': 0, 'i': 0, 'v': bad, 'note': 'failing-sync-into-constant'},
+                   {'op': 'set', 't': 0, 'p': 3, 'rhs': R.lit(9), 'note': 'rebind-constant'},
+                   {'op': 'update', 't': 0, 'kvs': [[3, R.lit(8)]], 'form': 'kw'},
+                   {'op': 'srcSet', 's': 0, 'i': 0, 'v': 4},
+                   {'op': 'set', 't': 0, 'p': 3, 'rhs': R.lit(7)},
+                   {'op': 'srcSet', 's': 1, 'i': 0, 'v': 1}]
+            yield R.mk_case(PROP, src0, [{'params': pds, 'ctor': ctor}], ops)
+
+
 def cases(rng, tier, worker, nworkers):
     if worker == 0:
         for f in sorted(glob.glob(os.path.join(os.path.dirname(__file__), '..', '..', 'corpus', 'C08', '*.json'))):
             yield dict(json.load(open(f))['case'], prop=PROP)
-    for i, c in enumerate(directed()):
+    for i, c in enumerate(itertools.chain(directed_constants(), directed())):
         if i % nworkers == worker:
             yield c
     n = 1400 if tier == 'quick' else 60000 // nworkers
